@@ -56,7 +56,11 @@ def gen_universe(rng, tier: str = "quick") -> dict:
         c = rng.choice(children)
         hb += 1
         if r < 0.10:
-            ops.append(["line", f"{n};255;0;0;{rng.choice([17, 18])};{proto if n else cur}\n"])
+            ver = proto if n else cur
+            if n and rng.random() < 0.2:
+                # what a node says about its library version is free text as far as the registry is concerned
+                ver = rng.choice(["", "2", "beta", "2.x", "1.4.0-rc1", "n/a", "2.2.0 (custom)"])
+            ops.append(["line", f"{n};255;0;0;{rng.choice([17, 18])};{ver}\n"])
         elif r < 0.18:
             ops.append(["line", f"{n};{c};0;0;{rng.choice([0, 3, 6, 9, 14])};{G.payload(rng)}\n"])
         elif r < 0.30:
